@@ -62,7 +62,7 @@ impl Prop for C07 {
         vec!["the ordered-list model in harness/src/props/c07.rs is the statement".into()]
     }
     fn random_cases(tier: Tier) -> u64 {
-        tier.pick(10_000, 200_000)
+        tier.pick(10_000, 3_000_000)
     }
     fn strategy(tier: Tier) -> BoxedStrategy<Case> {
         let key = prop_oneof![4 => (0u8..6).prop_map(|i| format!("k{i}")), 1 => (0u8..30).prop_map(|i| format!("key{i}"))];
